@@ -136,24 +136,31 @@ theorem dirMono_set_same {fs : FS} {p : Path} {old : Node} (nd : Node) (hf : fs 
   · rename_i e; subst e; simp [FS.isDir, hf] at hx; rw [hk]; exact hx
   · exact hx
 
-theorem dirMono_bumpDir (fs : FS) (p : Path) : DirMono fs (fs.bumpDir p) := by
-  unfold FS.bumpDir
-  split
-  · rename_i m t hf
-    exact dirMono_set_same _ hf rfl
-  · exact DirMono.refl _
-
 theorem bumpDir_other (fs : FS) (p x : Path) (h : x ≠ p) : fs.bumpDir p x = fs x := by
-  unfold FS.bumpDir
-  cases hfp : fs p with
-  | none => rfl
-  | some nd => cases nd <;> simp [FS.set, h]
+  simp [FS.bumpDir, h]
+
+theorem bumpDir_self_dir {fs : FS} {p : Path} {m : Nat} {t : Option Time} (h : fs p = some (.dir m t)) :
+    fs.bumpDir p p = some (.dir m none) := by
+  simp [FS.bumpDir, h]
+
+theorem dirMono_bumpDir (fs : FS) (p : Path) : DirMono fs (fs.bumpDir p) := by
+  intro x hx
+  by_cases e : x = p
+  · subst e
+    unfold FS.isDir at hx ⊢
+    cases hf : fs x with
+    | none => simp [hf] at hx
+    | some nd =>
+      cases nd with
+      | file m t d => simp [hf, Node.isDir] at hx
+      | dir m t => simp [FS.bumpDir, hf, Node.isDir]
+  · unfold FS.isDir at hx ⊢
+    rw [bumpDir_other _ _ _ e]; exact hx
 
 theorem bumpDir_none (fs : FS) (p x : Path) (h : fs x = none) : fs.bumpDir p x = none := by
   by_cases e : x = p
   · subst e
-    unfold FS.bumpDir
-    simp [h]
+    simp [FS.bumpDir, h]
   · rw [bumpDir_other _ _ _ e, h]
 
 theorem set_self (fs : FS) (p : Path) (nd : Node) : fs.set p nd p = some nd := by simp [FS.set]
@@ -168,7 +175,8 @@ theorem set_set (fs : FS) (p : Path) (a b : Node) : (fs.set p a).set p b = fs.se
 
 theorem setData_of_file {fs : FS} {p : Path} {m : Nat} {t : Option Time} {d0 : Str}
     (h : fs p = some (.file m t d0)) (d : Str) : setData fs p d = fs.set p (.file m none d) := by
-  simp [setData, h]
+  funext x
+  by_cases e : x = p <;> simp [setData, FS.set, h, e]
 
 theorem resize_exact (d : Str) : resize d d.length = d := by
   simp [resize]
